@@ -135,3 +135,37 @@ func firstLinesS(s string, n int) string {
 	}
 	return strings.Join(l, "\n  ")
 }
+
+// PrintDigests runs cases [from,to) and prints one line per case with everything that must be a
+// pure function of (seed, case#): used by the determinism self-test.
+func PrintDigests(p *PropDef, tier string, seed int64, from, to int) {
+	for n := from; n < to; n++ {
+		r := RunCase(p, tier, seed, n, nil, false)
+		var sigs []string
+		for _, v := range r.Violations {
+			sigs = append(sigs, v.Sig)
+		}
+		fk := make([]string, 0)
+		for k, v := range r.Faults {
+			fk = append(fk, fmt.Sprintf("%s=%d", k, v))
+		}
+		sortStrings(fk)
+		pk := make([]string, 0)
+		for k, v := range r.Probes {
+			pk = append(pk, fmt.Sprintf("%s=%d", k, v))
+		}
+		sortStrings(pk)
+		st := append([]string{}, r.States...)
+		sortStrings(st)
+		fmt.Printf("DIGEST case=%d trace=%s n=%d distinct=%q desc=%q nontrivial=%v steps=%d faults=%v probes=%v states=%d viol=%v infra=%q\n",
+			n, r.TraceHash, len(r.Decisions), r.DistinctID, r.Desc, r.NonTrivial, r.Steps, fk, pk, len(st), sigs, r.Infra)
+	}
+}
+
+func sortStrings(s []string) {
+	for i := 1; i < len(s); i++ {
+		for j := i; j > 0 && s[j] < s[j-1]; j-- {
+			s[j], s[j-1] = s[j-1], s[j]
+		}
+	}
+}
